@@ -196,7 +196,7 @@ def attribute(ck, pid, traces, fails, extra_props=()):
             if tr["meta"].get("resumed") and cl in RESUME_CLAUSES:
                 props.add("C08")  # a resumed run continues numbering / counting / schedule and ends with the same postconditions
             if cl == "NoRaise" and ev.get("site"):
-                kk = f"raised:{ev['site']}:{ev.get('exc')}"
+                kk = f"raised:{str(ev['site']).split('.')[0]}:{ev.get('exc')}"   # module of the raising frame + exception type (function names move in refactorings)
                 if kk in known_sites and pid not in known_sites[kk]:
                     counters["clause_failures_other_properties"] += 1
                     counters["runs_ended_by_a_finding_recorded_under_other_properties"] = counters.get("runs_ended_by_a_finding_recorded_under_other_properties", 0) + 1
@@ -212,7 +212,7 @@ def attribute(ck, pid, traces, fails, extra_props=()):
             dbg = (tr["meta"].get("dbg") or [None] * len(tr["events"]))[f["l"] - 1]
             key = f"trace:{cl}"
             if cl == "NoRaise" and ev.get("site"):
-                key = f"raised:{ev['site']}:{ev.get('exc')}"   # the failing call site identifies the finding
+                key = f"raised:{str(ev['site']).split('.')[0]}:{ev.get('exc')}"   # module of the raising frame + exception type identify the finding
             ck.violation(
                 key,
                 f"clause {cl} of PSRun fails at event {f['l']} ({f['ev']}) of run {tr['meta'].get('label')!r} seed={tr['meta'].get('seed')}",
